@@ -1,7 +1,9 @@
 package main
 
 import (
+	"github.com/gogpu/naga"
 	"github.com/gogpu/naga/ir"
+	"github.com/gogpu/naga/spirv"
 	"fmt"
 	"os"
 )
@@ -133,3 +135,35 @@ func cmdReorder(c *ctx) {
 }
 
 func init() { commands["reorder"] = cmdReorder }
+
+// spvdisp POLICY(0|1|2) FILE…: numeric disassembly of the SPIR-V emitted with every bounds-check policy set to POLICY
+// (version 1.5, loop bounding and coordinate adjustment on) — debugging aid.
+func cmdSpvDisP(c *ctx) {
+	var pol int
+	fmt.Sscan(c.args[0], &pol)
+	for _, f := range c.args[1:] {
+		b, _ := os.ReadFile(f)
+		m, res := frontEnd(string(b))
+		if m == nil {
+			fmt.Println("front end:", res)
+			continue
+		}
+		p := spirv.BoundsCheckPolicy(pol)
+		bin, err := naga.GenerateSPIRV(m, spirv.Options{Version: spirv.Version1_5, ForceLoopBounding: true, AdjustCoordinateSpace: true,
+			BoundsCheckPolicies: spirv.BoundsCheckPolicies{ImageLoad: p, ImageStore: p, Index: p}})
+		if err != nil {
+			fmt.Println(err)
+			continue
+		}
+		sm, err := decodeSPV(bin)
+		if err != nil {
+			fmt.Println(err)
+			continue
+		}
+		for _, in := range sm.Insts {
+			fmt.Println(in.Op, in.Words)
+		}
+	}
+}
+
+func init() { commands["spvdisp"] = cmdSpvDisP }
